@@ -13,10 +13,10 @@ static void one(const uint8_t *ad, size_t adlen, const uint8_t *m, size_t mlen, 
     ref_aead_encrypt(alg, key, nonce, ad, adlen, m, mlen, exp);
     const uint8_t *adp = adlen ? ad : 0;   /* NULL for empty optional input */
     char kb[64];
-    for (int entry = 0; entry < 5; entry++) {
+    for (int entry = 0; entry < 7; entry++) {
         uint8_t *c = hx_buf(clen);
         size_t got = (size_t)-1;
-        static const char *en[] = {"oneshot", "incremental", "masked", "cpp", "cpp-masked"};
+        static const char *en[] = {"oneshot", "incremental", "masked", "cpp", "cpp-masked", "cpp-key-constructor", "cpp-masked-key-constructor"};
         if (entry == 0) {
             api_aead_enc[alg](c, &got, m, mlen, adp, adlen, nonce, key);
         } else if (entry == 1) {
@@ -50,7 +50,7 @@ static void one(const uint8_t *ad, size_t adlen, const uint8_t *m, size_t mlen, 
             api_masked_enc[alg](c, &got, m, mlen, adp, adlen, nonce, &mk);
             api_masked_key_free(alg, &mk);
         } else {
-            int r = cpp_encrypt(entry == 3 ? 0 : 1, alg, key, nonce, c, m, mlen, adp, adlen);
+            int r = entry < 5 ? cpp_encrypt(entry == 3 ? 0 : 1, alg, key, nonce, c, m, mlen, adp, adlen) : cpp_encrypt_ctor(entry == 5 ? 0 : 1, alg, key, nonce, c, m, mlen, adp, adlen);
             got = (size_t)r;
         }
         hx_stat("evaluations", 1);
